@@ -6,6 +6,9 @@ import JunoModel.C11.ProofsConn
 import JunoModel.C11.ProofsRegister
 import JunoModel.C11.ProofsBatch
 import JunoModel.C11.ProofsEvents
+import JunoModel.C11.ProofsWsLoop
+import JunoModel.C11.ProofsTxRules
+import JunoModel.C11.ModelNullId
 /-!
 C11 — property theorems (statements only; proofs in `Proofs*.lean`, vocabulary in `ModelSpec.lean`,
 model of the code in `Model*.lean`).
@@ -478,6 +481,32 @@ theorem gate_max_requests_saturates (c q : Nat) (hc : c < Gate.two64) (hq : q < 
     Gate.newMax c q = min (c + q) (Gate.two64 - 1) :=
   Gate.newMax_spec c q hc hq
 
+/-- Round 6 — `HTTP.ServeHTTP` with a gate, one POST from arrival to return (`postGateOps`: `Acquire`, then the
+deferred `Release` on every way out — answer written, nothing to write for notifications, Go error, panic; a request
+whose context is already done holds nothing). In ANY reachable state of the gate (whatever other requests hold slots
+or wait) with a free slot and room, such a POST is admitted and leaves the gate exactly as it found it: no kind of
+request, answered or not, costs capacity. -/
+theorem gate_post_leaves_no_trace (c q : Nat) (ops : List Gate.Op) (live : Bool) (e : PostExit)
+    (hfree : ((Gate.St.new c q).run ops).sem < ((Gate.St.new c q).run ops).maxConcurrent)
+    (hroom : ((Gate.St.new c q).run ops).active < ((Gate.St.new c q).run ops).maxRequests) :
+    ((Gate.St.new c q).run ops).run (postGateOps live e) = (Gate.St.new c q).run ops ∧
+      (live = true → (((Gate.St.new c q).run ops).step (.acquire false)).2 = .admitted) :=
+  ⟨postGateOps_restores _ (gate_invariant c q ops) hfree hroom live e,
+   fun _ => (acquire_release_restores _ (gate_invariant c q ops) hfree hroom).2⟩
+
+/-- Sequential traffic of any length and any mix (requests, notifications, batches of notifications, failing
+handlers, requests that arrive with an expired deadline) on `NewGate(c, q)`, `c ≥ 1`: every live POST is admitted,
+every dead one gets its context error, and after each of them `Running() = 0`, `Queued() = 0`, `Rejected() = 0`. -/
+theorem gate_sequential_posts_all_admitted (c q : Nat) (hc : 1 ≤ c) (hc' : c < Gate.two64) (hq : q < Gate.two64)
+    (xs : List (Bool × PostExit)) :
+    (Gate.St.new c q).posts xs = xs.map (fun x => (if x.1 then Gate.Outcome.admitted else .ctxErr, 0, 0, 0)) ∧
+      (Gate.St.new c q).run (xs.flatMap (fun x => postGateOps x.1 x.2)) = Gate.St.new c q := by
+  have hroom : (Gate.St.new c q).active < (Gate.St.new c q).maxRequests := by
+    have := newMax_pos c q hc hc' hq
+    simp only [Gate.St.new]; omega
+  have hfree : (Gate.St.new c q).sem < (Gate.St.new c q).maxConcurrent := by simp only [Gate.St.new]; omega
+  exact ⟨posts_trace _ (Gate.inv_new c q) hfree hroom xs, posts_flatMap_restores _ (Gate.inv_new c q) hfree hroom xs⟩
+
 /-! ## 10. The response comes first on its connection (`HandleReadWriter`, `connection.Write`, round 4) -/
 
 /-- Handlers may hand the connection of their request to goroutines that write further messages
@@ -597,6 +626,61 @@ theorem http_post_headers (g : Bool) (o : OutputX) (hwf : o.header.WF) :
   have := (http_body_framing g o b hb).1
   simpa [hg] using this
 
+/-! ## 13. The WebSocket read loop keeps the connection's byte stream in step (`ModelWsLoop.lean`, round 6)
+
+`ModelTransport.wsSession` is a `map` over messages and cannot say that bytes of one frame never reach the handling
+of the next message. `WsLoop.run` has the reader position: after `HandleReadWriter` some payload bytes of the
+message are unread (the JSON decoder stops after the first value), the library parses whatever comes next as a frame
+header, and only the drain step (`io.Copy(io.Discard, wsc.r)`) puts the stream back on a frame boundary. -/
+
+/-- For every session (any number of messages, fragmented or not, of any size) and for EVERY amount of payload the
+decoder happened to read: each message up to and including the first whose `HandleReadWriter` fails is handed over
+exactly once, in the order sent, starting at its first byte; the loop ends only because the client closed or
+because of that failure, and `OnNewRequest("any")` is called once per handled message. -/
+theorem ws_loop_handles_every_message_from_its_start (ms : List WsLoop.Msg) :
+    WsLoop.run WsLoop.drainAll 0 ms =
+      (if (WsLoop.okPrefix ms).length = ms.length then (WsLoop.handledFrom 0 ms.length, .clientClosed)
+       else (WsLoop.handledFrom 0 ((WsLoop.okPrefix ms).length + 1), .handlerError)) ∧
+    (∀ u, (WsLoop.run WsLoop.drainAll 0 ms).2 ≠ .outOfStep u) :=
+  ⟨WsLoop.run_drainAll 0 ms, WsLoop.run_drainAll_in_step 0 ms⟩
+
+/-- The statement has content: a drain bounded by one buffer (128 bytes) loses step on a 300-byte frame of which the
+decoder read 40 bytes — the second message is never handled. (The change `io.CopyN(io.Discard, wsc.r, bufferSize)`
+was seeded against an earlier round; this is its witness on the model.) -/
+theorem ws_loop_bounded_drain_loses_step :
+    WsLoop.run (WsLoop.drainAtMost 128) 0 [{ frames := [300], taken := 40 }, { frames := [10], taken := 10 }]
+      = ([{ index := 0, fromStart := true }], .outOfStep 132) := by decide
+
+/-- The close reason the server sends after a failure is a prefix of the error text of at most 125 bytes, the whole
+text when it fits. (The library accepts 123: see notes, not part of the property.) -/
+theorem ws_close_reason_bounded (err : List UInt8) :
+    (WsLoop.closeReason err).length ≤ 125 ∧ WsLoop.closeReason err <+: err ∧
+      (err.length ≤ 125 → WsLoop.closeReason err = err) :=
+  WsLoop.closeReason_spec err
+
+/-! ## 14. "bad parameters" for the broadcasted transaction: the conditional rules of `rpcv10.Validator()` (round 6)
+
+`ModelTxRules.lean` transcribes the `validate:` tags of `rpcv10.Transaction` / `BroadcastedTransaction` as the
+validator evaluates them with the custom type function `Validator()` registers for `TransactionType`. -/
+
+/-- For every transaction type and every set of members present: the parameter passes validation iff it carries
+every member its type needs — the eight common ones, plus `sender_address`, `calldata`, `account_deployment_data`
+(INVOKE), `sender_address`, `account_deployment_data`, `contract_class` (DECLARE), `contract_address_salt`,
+`class_hash`, `constructor_calldata` (DEPLOY_ACCOUNT / DEPLOY) — and, unless it is an INVOKE, neither `proof_facts`
+nor `proof`. A request whose parameter does not pass is answered -32602 and its handler does not run
+(`request_meets_spec_partial`, through `Env.decode`). -/
+theorem broadcasted_tx_accepted_iff_required_members (ty : TxRules.TxType) (present : TxRules.Field → Bool) :
+    TxRules.accepts ty present = true ↔
+      (∀ f ∈ TxRules.requiredFor ty, present f = true) ∧
+      (ty ≠ .invoke → present .proofFacts = false ∧ present .proof = false) :=
+  TxRules.accepts_iff ty present
+
+/-- What the tag `validate:"required"` on `Type` does NOT do (the code as it is): a parameter without a `type` member
+passes validation when the eight common members are there — the custom type function turns the zero value into the
+non-empty string "<unknown>". -/
+theorem broadcasted_tx_without_type_passes_validation :
+    TxRules.accepts .unknown (fun f => f ∈ TxRules.requiredFor .unknown) = true := by decide
+
 /-! ## Non-vacuity: the hypotheses are satisfiable, the model does what the examples of the
 specification say -/
 
@@ -639,6 +723,12 @@ example : ((Gate.St.new 1 1).run [.acquire false, .acquire false, .waiterCtxDone
     ∧ ((Gate.St.new 1 1).run [.acquire false, .acquire false, .waiterCtxDone, .release]).waiting = 0 := by decide
 example : Gate.newMax 2 (Gate.two64 - 1) = Gate.two64 - 1 ∧ Gate.newMax 2 (Gate.two64 - 3) = Gate.two64 - 1
     ∧ Gate.newMax 2 (Gate.two64 - 4) = Gate.two64 - 2 := by decide
+-- round 6: three POSTs alone at Gate(1,0) — a request, a notification, one with an expired deadline
+example : (Gate.St.new 1 0).posts [(true, .answered), (true, .silent), (false, .answered), (true, .panicked)]
+    = [(.admitted, 0, 0, 0), (.admitted, 0, 0, 0), (.ctxErr, 0, 0, 0), (.admitted, 0, 0, 0)] := by decide
+-- a POST beside a held slot: Gate(2,0), one slot held, free slot and room
+example : ((Gate.St.new 2 0).run [.acquire false]).sem < ((Gate.St.new 2 0).run [.acquire false]).maxConcurrent
+    ∧ ((Gate.St.new 2 0).run [.acquire false]).active < ((Gate.St.new 2 0).run [.acquire false]).maxRequests := by decide
 -- the connection: a goroutine tries to push before the response is out, another afterwards
 example : Conn.Reach { hasResponse := true } { wire := [.response, .pushed 0, .pushed 1], activated := true } := by
   have s1 := Conn.Reach.step Conn.Reach.init (Conn.Step.block (fin := { hasResponse := true }) {} 0 rfl)
@@ -659,6 +749,16 @@ example : feltMaxBits (2 ^ 64 - 1) 64 = true ∧ feltMaxBits (2 ^ 64) 64 = false
   refine ⟨(feltMaxBits_spec _ _).mpr (by decide), ?_⟩
   rw [Bool.eq_false_iff, Ne, feltMaxBits_spec]
   decide
+-- round 6: a session of three messages (fragmented, with unread remainders), the second fails to write its answer
+example : WsLoop.run WsLoop.drainAll 0
+    [{ frames := [100, 200], taken := 128 }, { frames := [70000], taken := 64, ok := false }, { frames := [5], taken := 5 }]
+    = ([{ index := 0, fromStart := true }, { index := 1, fromStart := true }], .handlerError) := by decide
+example : (WsLoop.run WsLoop.drainAll 0 [{ frames := [300], taken := 40 }, { frames := [], taken := 0 }]).2 = .clientClosed := by
+  decide
+-- round 6: an INVOKE with exactly its members passes; without `calldata` it does not; a DECLARE with `proof` does not
+example : TxRules.accepts .invoke (fun f => f ∈ TxRules.requiredFor .invoke) = true := by decide
+example : TxRules.accepts .invoke (fun f => f ∈ TxRules.requiredFor .invoke && f != .calldata) = false := by decide
+example : TxRules.accepts .declare (fun f => f ∈ TxRules.requiredFor .declare || f == .proof) = false := by decide
 -- round 5: the listener and the headers. `h` returns a header, `p` panics, `m` returns an unmarshallable value
 def hdrOf : String → List Json → Header := fun n _ => if n = "ok" then [("X-Verif-Method", [n])] else []
 example : (handleInputX false faultyEnv hdrOf faultyTable
@@ -675,5 +775,29 @@ example : (httpPostHeaders false { body := some .null, header := [("Content-Type
     = ["text/plain"] := by decide
 example : ((handleEntryX faultyEnv hdrOf faultyTable (-32600) (request "p" [("id", .num "2")])).events.filterMap Event.failed?)
     ≠ [] := by decide
+
+/-! ## 15. After the proposed repair of `request-with-null-id-not-answered` (`ModelNullId.lean`, round 6)
+
+`proposed-fixes/C11-null-id-is-a-request.diff` makes the decoder tell `"id": null` from a missing id member. The model
+of the repaired server (`NullId.handleInputFixed`, what the driver runs when the harness finds the repair in the code)
+answers the witness of `request_with_null_id_not_answered` with id null and stays silent for a notification. -/
+
+theorem null_id_request_answered_after_repair :
+    (NullId.handleInputFixed junoCfg echoEnv subTable
+      (singleInput (request "subtract" [("params", .arr [.num "42", .num "23"]), ("id", .null)]))).body
+      = some (.obj [("jsonrpc", .str "2.0"), ("result", .arr [.num "42", .num "23"]), ("id", .null)]) ∧
+    (NullId.handleInputFixed junoCfg echoEnv subTable
+      (batchInput [request "nope" [("id", .null)], request "subtract" [("params", .arr [.num "1", .num "2"])]])).body
+      = some (.arr [.obj [("jsonrpc", .str "2.0"),
+          ("error", .obj [("code", .num "-32601"), ("message", .str "Method Not Found")]), ("id", .null)]]) := by
+  constructor <;> rfl
+
+theorem notification_still_silent_after_repair :
+    (NullId.handleInputFixed junoCfg echoEnv subTable
+      (singleInput (request "subtract" [("params", .arr [.num "42", .num "23"])]))).body = none ∧
+    (NullId.handleInputFixed junoCfg echoEnv subTable
+      (singleInput (request "subtract" [("params", .arr [.num "42", .num "23"]), ("id", .null), ("ID", .num "7")]))).body
+      = some (.obj [("jsonrpc", .str "2.0"), ("result", .arr [.num "42", .num "23"]), ("id", .num "7")]) := by
+  constructor <;> rfl
 
 end Juno.C11.Props
